@@ -611,3 +611,186 @@ def check_c13(seed, n):
             violations.append({"property": "C13", "stream": "c13", "sig": "c13:" + re.sub(r"[0-9]+", "N", r)[:60],
                                "case": {"text": text, "opts": opts, "cmds": cmds}, "what": r})
     return {"evaluations": evals, "violations": violations, "disagreements": [], "distribution": dist}
+
+
+# ---------------------------------------------------------------------------------------------------------
+# correspondence with the Lean debugger model (herad `dbg`)
+
+FLAG_IDX = {"flag_sign": 0, "flag_zero": 1, "flag_overflow": 2, "flag_carry": 3, "flag_carry_block": 4}
+MODELLED = ("next", "n", "step", "s", "continue", "c", "break", "clear", "restart", "undo", "goto", "on", "off")
+
+
+def modelled(cmds):
+    return all(c.split()[0] in MODELLED for c in cmds)
+
+
+def to_model_cmd(shell, c):
+    """Protocol form of a shell command (locations resolved by the real debugger), evaluated *before* the command runs.
+    A command that only prints an error still saves a snapshot: `n 0`."""
+    import hera.debugger.shell as SH
+    from hera.data import HERAError
+    parts = c.split()
+    k = parts[0]
+    noop = ["n 0"]
+    if k in ("next", "n"):
+        if len(parts) > 2:
+            return noop
+        if len(parts) == 2:
+            try:
+                return ["n {}".format(int(parts[1]))]
+            except ValueError:
+                return noop
+        return ["n 1"]
+    if k in ("step", "s"):
+        return ["s"] if len(parts) == 1 else noop
+    if k in ("continue", "c"):
+        return ["c"] if len(parts) == 1 else noop
+    if k == "restart":
+        return ["r"] if len(parts) == 1 else noop
+    if k == "undo":
+        return ["u"] if len(parts) == 1 else []
+    if k in ("break", "goto"):
+        if len(parts) != 2:
+            return noop
+        try:
+            b = shell.debugger.location_to_instruction_number(parts[1])
+        except ValueError:
+            return noop
+        return ["{} {}".format("b" if k == "break" else "g", int(b))]
+    if k == "clear":
+        if len(parts) == 1:
+            return noop
+        if "*" in parts[1:]:
+            return ["X"]
+        out = []
+        for a in parts[1:]:
+            try:
+                out.append("x {}".format(int(shell.debugger.location_to_instruction_number(a))))
+            except ValueError:
+                pass
+        # several clears inside one command are one snapshot: only single-argument clears are generated
+        return out[:1] if out else noop
+    if k in ("on", "off"):
+        if len(parts) == 1:
+            return noop
+        try:
+            flags = [SH.expand_flag(a) for a in parts[1:]]
+        except HERAError:
+            return noop
+        if len(flags) != 1:
+            return None
+        return ["f {} {}".format(FLAG_IDX[flags[0]], 1 if k == "on" else 0)]
+    return None
+
+
+def render_real(shell):
+    d = shell.debugger
+    vm = d.vm
+    vm.settings.warning_count = 0
+    sh = -1 if d.finished() else d.op().loc.line
+    return "ok {} {} {} {} {}".format(len(shell.command_history), int(d.calls), proto.w_list(int(k) for k in d.breakpoints), sh,
+                                      proto.w_vm(vm, "", ()))
+
+
+def w_dprog(prog):
+    ids, gid = {}, []
+    for op in prog.code:
+        gid.append(ids.setdefault(id(op.original), len(ids)))
+    is_call = [1 if op.original.name == "CALL" else 0 for op in prog.code]
+    lines = [op.original.loc.line for op in prog.code]
+    return "{} {} {} {}".format(progrun.w_program(prog), proto.w_list(gid), proto.w_list(is_call), proto.w_list(lines))
+
+
+def model_case(text, opts, cmds, fuel=6000):
+    """Returns (request line, list of real per-command renderings) or None when the history is outside the model."""
+    import hera.vm as V
+    if load_terminating(text, opts) is None:
+        return None
+    shell, st, prog, out0, errs0 = debugger_session(text, opts)
+    pre = V.VirtualMachine(make_settings("debug", opts))
+    real = [render_real(shell)]
+    mcmds = []
+    for c in cmds:
+        mc = to_model_cmd(shell, c)
+        if mc is None:
+            break
+        out, errs, exc, cont = dbg.feed(shell, c, limit=5)
+        if exc:
+            break
+        for m in mc:
+            mcmds.append(m)
+        if mc:
+            real.append(render_real(shell))
+    req = "dbg {} {} {} {} {}".format(fuel, w_dprog(prog), proto.w_vm(pre, as_input=True), len(mcmds), " ".join(mcmds))
+    return req, real
+
+
+def check_model(seed, n):
+    rng = random.Random(seed)
+    reqs, reals, cases = [], [], []
+    for k in range(n):
+        text = gen_program(rng, seed * 4001 + k)
+        opts = options(rng) if rng.random() < 0.4 else {}
+        prog = load_terminating(text, opts)
+        if prog is None:
+            continue
+        cmds = [c for c in (gen_c13_cmds(rng, prog) if k % 2 else gen_c12_cmds(rng, prog)) if c.split()[0] in MODELLED
+                and not (c.split()[0] in ("on", "off") and len(c.split()) != 2) and c != "break"]
+        r = model_case(text, opts, cmds)
+        if r is None:
+            continue
+        reqs.append(r[0])
+        reals.append(r[1])
+        cases.append({"text": text, "opts": opts, "cmds": cmds})
+    answers = proto.run_herad(reqs)
+    disagreements, evals = [], 0
+    for case, real, ans in zip(cases, reals, answers):
+        got = ans.split(" | ")
+        evals += len(real)
+        if got and got[-1] == "fuel":
+            got = got[:-1]
+            real = real[:len(got)]
+        if got != real:
+            i = next((j for j, (a, b) in enumerate(zip(got, real)) if a != b), min(len(got), len(real)))
+            disagreements.append({"stream": "dbgmodel", "case": case, "at": i,
+                                  "model": (got[i] if i < len(got) else "<missing>")[:600],
+                                  "impl": (real[i] if i < len(real) else "<missing>")[:600]})
+    return {"evaluations": evals, "violations": [], "disagreements": disagreements, "distribution": {"sessions": len(cases)}}
+
+
+# ---------------------------------------------------------------------------------------------------------
+# hypothesis monitor for C11: within every source operation only the last instruction may be anything but
+# SETLO / SETHI / FON / FOFF, and the instructions of one source operation are contiguous
+
+STRAIGHT = ("SETLO", "SETHI", "FON", "FOFF")
+
+
+def shape_problem(text, opts):
+    st = make_settings("debug", opts)
+    prog, out, errs, exc = progrun.load(text, st)
+    if prog is None:
+        return None
+    seen = set()
+    code = prog.code
+    for i, op in enumerate(code):
+        oid = id(op.original)
+        if i > 0 and id(code[i - 1].original) != oid and oid in seen:
+            return "the instructions of source operation {} (line {}) are not contiguous".format(op.original, op.original.loc.line)
+        seen.add(oid)
+        last = i + 1 >= len(code) or code[i + 1].original is not op.original
+        if not last and op.name not in STRAIGHT:
+            return "{} (not the last instruction of {}) is not one of SETLO/SETHI/FON/FOFF".format(op, op.original)
+    return None
+
+
+def check_shape(seed, n):
+    rng = random.Random(seed)
+    violations, evals = [], 0
+    for k in range(n):
+        text = gen_program(rng, seed * 3001 + k)
+        r = shape_problem(text, {})
+        evals += 1
+        if r:
+            violations.append({"property": "C11", "stream": "shape", "sig": "shape", "case": {"text": text, "opts": {}},
+                               "what": "hypothesis of C11 fails on a real program: " + r})
+    return {"evaluations": evals, "violations": violations, "disagreements": [], "distribution": {}}
